@@ -4,8 +4,10 @@ pub mod c02;
 pub mod c02_gen;
 pub mod c03;
 pub mod c04;
+pub mod c04_gen;
 pub mod c05;
 pub mod c06;
+pub mod c06_gen;
 pub mod c07;
 pub mod c08;
 pub mod c09;
